@@ -333,6 +333,16 @@ struct Ctx {
     { struct timespec ts; clock_gettime(CLOCK_PROCESS_CPUTIME_ID, &ts); s.case_cpu0 = (double)ts.tv_sec + 1e-9 * (double)ts.tv_nsec; }
     s.in_case = 1;
   }
+  // the case generators call the library themselves (vec_znx_dft to build a DFT-space input, vmp_prepare for a prepared matrix, ...):
+  // a crash there is a crash of the library on in-domain arguments, not a machinery error - it is attributed to the group being built
+  void generating(const std::string& what) {
+    WorkerShm& s = my();
+    snprintf(s.cur, sizeof s.cur, "generator|%s", what.c_str());
+    s.case_t0 = now();
+    { struct timespec ts; clock_gettime(CLOCK_PROCESS_CPUTIME_ID, &ts); s.case_cpu0 = (double)ts.tv_sec + 1e-9 * (double)ts.tv_nsec; }
+    s.in_case = 2;
+  }
+  void generating_done() { if (my().in_case == 2) my().in_case = 0; }
   // nontrivial: by the check's stated rule
   void end_case(bool nontrivial, const std::string* sample = 0) {
     WorkerShm& s = my();
@@ -432,17 +442,19 @@ struct Ctx {
         std::string how = WIFSIGNALED(st) ? sfmt("killed by signal %d (%s)", WTERMSIG(st), strsignal(WTERMSIG(st)))
                                           : sfmt("exited with status %d", WEXITSTATUS(st));
         const bool hung = w[k].hung != 0;
+        const bool in_generator = w[k].in_case == 2;
         w[k].hung = 0;
         if (!w[k].in_case) machinery_error("worker died outside any case: %s (%s)", how.c_str(), phase);
         int save = me; me = k;
         violation(id, hung ? sfmt("the call did not return within %.0f s of CPU time (the case normally takes far less): non-termination", args.case_limit_s * (args.replaying() ? 1.5 : 1))
+                           : in_generator ? "the library crashed while the harness was building the inputs of the next case of this group (the generators call the library on in-domain arguments): " + how
                            : "the call crashed: " + how);
         my().evals++;
         my().in_case = 0;
         me = save;
         parent_restarts++;
         if (parent_restarts > 400 || hung) { g->crash_cap_hit = 1; pid[k] = 0; alive--; continue; }  // enough evidence (many crashes, or one hang: every further one would cost the full limit): stop exploring, report
-        spawn(k, true);  // finish the interrupted item (skipping what was already executed), then continue
+        spawn(k, !in_generator);  // finish the interrupted item (skipping what was already executed), then continue; an item whose generator crashed is abandoned
       } else {
         pid[k] = 0;
         alive--;
